@@ -397,6 +397,17 @@ FIXED += [
                                 st("v3", "collect", "v2", keep=True)], "result": "v3"}),
 ]
 
+FIXED += [
+    ("F57-colexpr-export-arrange-cols", "C20", "Order.iter_children yields the ordering expression (ColExpr.export of row_number / rank)",
+     "row_number(arrange=t.id).export(Polars()) raised StopIteration: the columns inside arrange= were not found",
+     {"tables": [TG], "steps": [S()], "result": "v0", "validate": "check",
+      "expr": {"var": "v0", "expr": F("row_number", arrange=[[V("v0", "id"), False, "first", 1]])}}),
+    ("F58-colexpr-export-no-column", "C20", "exporting a column expression without any column raises ValueError instead of StopIteration",
+     "pdt.count().export(Polars()) raised StopIteration",
+     {"tables": [TG], "steps": [S()], "result": "v0", "validate": "check",
+      "expr": {"var": "v0", "expr": F("count_star")}}),
+]
+
 
 def main():
     log = subprocess.run(["git", "-C", "/repo", "log", "--format=%h %s"], capture_output=True, text=True).stdout.splitlines()
